@@ -4,6 +4,7 @@
 import Nlmodel.Model.Printer
 import Nlmodel.Proofs.Lemmas.Pratt
 import Nlmodel.Proofs.C08
+import Nlmodel.Proofs.Lemmas.RoundTrip
 namespace Nl
 namespace C07
 
@@ -109,6 +110,43 @@ theorem C07_text_round_trip (cc : CharClass) (hcc : LR.CCWF cc) (e : Expr) (h : 
     · trivial
   rw [C08.C08_lex_render cc hcc _ ks hw]
   exact C07_print_parse_program e h
+
+/-! ### the whole grammar -/
+
+/-- ROUND TRIP FOR THE WHOLE GRAMMAR (`RTF.gE`/`gS`/`gB`: mutual induction over expressions, argument
+    lists, statements and blocks): for EVERY program tree the parser can produce (`RTF.WB`: integer
+    literals in range, prefix operators `!`/`-`, the 13 binary operators with a non-function left
+    operand, assignment to a name or an indexed name, calls of a name or a function literal,
+    indexing of a name / list literal / string literal, `als` with and without `anders`, `zolang`,
+    named and anonymous `functie` with any parameters, list literals, blocks, `stel`, `antwoord`,
+    `stop`, `volgende`; float literals whose shortest spelling reads back, `RTF.FloatRT`), of any
+    size and nesting depth, printing it with minimal parentheses according to the DOCUMENTED
+    precedence table and parsing the tokens gives back exactly that tree — with the fuel `parse`
+    supplies (`PF.all` + `PSt.stable`: the fuel is sufficient and more fuel never changes an answer). -/
+theorem C07_print_parse_whole_grammar (b : Block) (hb : RTF.WB b) : parseTokens (printProgram b) = .ok b :=
+  RTF.print_parse_program b hb
+
+/-- ... and at the level of TEXT, under any layout (blanks, tabs, newlines, Unicode whitespace, line
+    comments incl. multi-byte text, nothing at all where maximal munch allows), provided the tokens
+    are spellable (identifiers are not keywords and consist of identifier characters) -/
+theorem C07_text_round_trip_whole_grammar (cc : CharClass) (hcc : LR.CCWF cc) (b : Block) (hb : RTF.WB b)
+    (hw : ∀ t ∈ printProgram b, LR.WFTok cc t) (ks : List Nat) :
+    parse cc (render (printProgram b) ks) = .ok b := by
+  unfold parse
+  rw [C08.C08_lex_render cc hcc _ ks hw]
+  exact RTF.print_parse_program b hb
+
+/-- non-vacuity: `functie f(a, b) { als a < b { antwoord [a, f(b, a)][0] } anders { x = -a; }; zolang !ja { stop; }; };` is well-formed -/
+example : RTF.WB (.cons (.expr (.func ['f'] [['a'], ['b']]
+    (.cons (.expr (.ifE (.infix (.ident ['a']) .lt (.ident ['b']))
+        (.cons (.ret (.index (.arr (.cons (.ident ['a']) (.cons (.call (.ident ['f']) (.cons (.ident ['b']) (.cons (.ident ['a']) .nil))) .nil))) (.int 0))) .nil)
+        (.some (.cons (.expr (.assign (.ident ['x']) (.pre .sub (.ident ['a'])))) .nil))))
+    (.cons (.expr (.whileE (.pre .not (.bool true)) (.cons .brk .nil))) .nil)))) .nil) :=
+  .cons _ _ (.expr _ (.func _ _ _
+    (.cons _ _ (.expr _ (.ifE _ _ _ (.bin _ _ _ (by simp [RT.isBin]) rfl (.ident _) (.ident _))
+      (.cons _ _ (.ret _ (.index _ _ rfl (.arr _ (.cons _ _ (.ident _) (.cons _ _ (.call _ _ rfl (.ident _) (.cons _ _ (.ident _) (.cons _ _ (.ident _) .nil))) .nil))) (.int 0 (by decide) (by decide)))) .nil)
+      (.some _ (.cons _ _ (.expr _ (.assign _ _ rfl (.ident _) (.pre _ _ (.inr rfl) (.ident _)))) .nil))))
+    (.cons _ _ (.expr _ (.whileE _ _ (.pre _ _ (.inl rfl) (.bool _)) (.cons _ _ .brk .nil))) .nil)))) .nil
 
 end C07
 end Nl
